@@ -108,8 +108,12 @@ pub fn compact(cells: &[u64]) -> Result<Vec<u64>, String> {
         return Ok(Vec::new());
     }
 
-    // Single sort and dedup
-    let unique_cells: HashSet<u64> = cells.iter().copied().collect();
+    // Single sort and dedup. Every cell is taken in its canonical form, so that non-canonical
+    // aliases of one cell count as that cell; bit patterns that are not cells are rejected
+    let mut unique_cells: HashSet<u64> = HashSet::with_capacity(cells.len());
+    for &cell in cells {
+        unique_cells.insert(cell_to_parent(cell, Some(get_resolution(cell)))?);
+    }
     let mut current_cells: Vec<u64> = unique_cells.into_iter().collect();
     current_cells.sort_unstable_by_key(|&cell| scan_key(cell));
 
